@@ -131,18 +131,3 @@ Definition plain_line (p : str) : str := p ++ [LF].
 Definition hex_line (enc : str -> list N) (p : str) : str := hex_prefix ++ hex_of_bytes (enc p) ++ [93; LF].
 (* [ds]: the digits of the count, [pad]: leading blanks *)
 Definition count_line (pad ds payload : str) : str := pad ++ ds ++ SP :: payload.
-
-(* ---------------------------------------------------------------- collapsing repeated lines *)
-
-Definition count_str (x : str) (l : list str) : nat := length (filter (str_eqb x) l).
-
-(* first occurrences, in order *)
-Fixpoint nodup_first (l : list str) : list str :=
-  match l with
-  | [] => []
-  | x :: r => x :: filter (fun y => negb (str_eqb x y)) (nodup_first r)
-  end.
-
-(* sort | uniq -c keeping first-occurrence order, and its expansion *)
-Definition collapse (l : list str) : list (str * nat) := map (fun p => (p, count_str p l)) (nodup_first l).
-Definition expand (cl : list (str * nat)) : list str := flat_map (fun pn => repeat (fst pn) (snd pn)) cl.
